@@ -453,6 +453,49 @@ pub fn next_id_runs(acc: &mut Acc, cap: usize, run: usize, variant: usize) {
     }
 }
 
+/// C05 with an allocator position beyond 16 bits: a store of 70 000 slots whose first `run` ids are
+/// present (added explicitly; the prefix is applied to graph and model without judging, it is plain
+/// add() of absent ids), then next_id()/add(next_id()) calls judged as usual, a collection of what
+/// was added, and more next_id() calls: no id may come twice.
+pub fn next_id_beyond_16_bits(acc: &mut Acc, run: usize, variant: usize) {
+    const CAP: usize = 70_000;
+    let what = format!("capacity {CAP}: ids 0..{run} added, then next_id calls, a collection, next_id calls (variant {variant})");
+    let mut g: Sodg<2> = Sodg::empty(CAP);
+    let mut m = Model::new(CAP, 2, true);
+    for v in 0..run {
+        g.add(v);
+        m.apply(&Op::Add(v));
+    }
+    let mut ops: Vec<Op> = vec![];
+    for i in 0..4 {
+        ops.push(if (i + variant) % 2 == 0 { Op::NextId } else { Op::AddNext });
+    }
+    // two of the ids just added form a group and are collected; the allocator must not hand them out again
+    let (a, b) = (run + 10 + variant % 2, run + 13 + variant % 2); // absent: the calls above took at most run..run+3
+    ops.extend([Op::Add(a), Op::Add(b), Op::Bind(a, b, 0), Op::Put(b, 0), Op::Data(b), Op::NextId, Op::AddNext, Op::CloneSwap, Op::NextId]);
+    let labels: Vec<u8> = vec![0];
+    let mut done = vec![];
+    for (i, op) in ops.iter().enumerate() {
+        let pos = g.verif_snapshot().next_v;
+        if !m.enabled(op, pos) {
+            continue;
+        }
+        acc.evaluations += 1;
+        done.push(*op);
+        let (_, fs) = step(&labels, &mut g, &mut m, op);
+        if let Some(f) = fs.iter().find(|f| f.tags.contains(&"C05")) {
+            acc.fail("C05", &format!("family:{}", f.kind), format!("{what}: [{}] at call {} of {} after the prefix: {} (calls after the prefix: {})", f.kind, i + 1, ops.len(), f.detail, crate::model::hist_text(&done)), json!({"engine": "c05-big", "property": "C05", "run": run, "variant": variant}));
+            return;
+        }
+        if !fs.is_empty() {
+            acc.bump("diverged_not_this_property", 1);
+            return;
+        }
+    }
+    acc.nontrivial += 1;
+    acc.bump("next_id_histories_beyond_16_bits", 1);
+}
+
 pub fn run_c05_family(tier: &str) -> Acc {
     let caps = [1usize, 2, 9, 10, 12, 17, 33, 64, 300, 1024];
     let mut cases = vec![];
@@ -471,6 +514,8 @@ pub fn run_c05_family(tier: &str) -> Acc {
         }
     });
     script_scenarios(&mut acc);
+    let runs: Vec<usize> = vec![65_530, 65_533, 65_534, 65_535, 65_536, 65_537, 65_790];
+    acc.merge(super::par_cases(runs.len() * 2, |i, acc| next_id_beyond_16_bits(acc, runs[i / 2], i % 2)));
     acc.merge(run_c05_dag_family(tier));
     acc
 }
@@ -706,6 +751,7 @@ pub fn run_c05_dag_family(tier: &str) -> Acc {
 pub fn replay(engine: &str, v: &serde_json::Value) -> i32 {
     let mut acc = Acc::default();
     match engine {
+        "c05-big" => next_id_beyond_16_bits(&mut acc, v["run"].as_u64().unwrap_or(0) as usize, v["variant"].as_u64().unwrap_or(0) as usize),
         "c05-dag" => dag_merge_case(&mut acc, v["tier"].as_str().unwrap_or("quick"), v["left"].as_u64().unwrap_or(0) as usize, v["right"].as_u64().unwrap_or(0) as usize),
         _ => {
             println!("unknown engine '{engine}' in replay file");
